@@ -1285,3 +1285,61 @@ Proof.
   split; [vm_compute; reflexivity|]. split; [vm_compute; reflexivity|].
   split; vm_compute; reflexivity.
 Qed.
+
+(* ------------------------------------------------------------------------------------------ *)
+(** * Part 7: processors that fail — freshness includes the error/value distinction *)
+
+Lemma map_opt_ext {A B} (f g : A -> option B) l : (forall x, f x = g x) -> map_opt f l = map_opt g l.
+Proof. intros H. induction l; simpl; auto. rewrite H, IHl. reflexivity. Qed.
+
+Lemma eval_outcome_fst : forall f g n,
+  eval_scratch f (map oerase g) n = option_map fst (eval_outcome f g n).
+Proof.
+  induction f; intros g n; [reflexivity|].
+  rewrite eval_S. cbn [eval_outcome]. rewrite nth_error_map.
+  destruct (nth_error g n) as [[v|ins p]|]; simpl; auto.
+  rewrite (map_opt_ext _ (map_opt (fun d => option_map fst (eval_outcome f g d)))).
+  - destruct (map_opt _ ins); reflexivity.
+  - intros l. apply map_opt_ext. intros d. apply IHf.
+Qed.
+
+(* If the processors of the graph are the value components of error-returning functions (og), the value a
+   read returns is the value component of the from-scratch OUTCOME of the node — whether that outcome is a
+   success or an error, and whatever failed or succeeded before. *)
+Theorem read_fresh_outcome orc ds h s n s' v og :
+  oracle_ok orc -> run orc (init ds) h = Some s -> read orc s n = Some (s', v) ->
+  graph_of (nodes s) = map oerase og ->
+  exists failed, eval_outcome (fuel_of (nodes s)) og n = Some (v, failed).
+Proof.
+  intros PO R Hr G. destruct (read_fresh_any_order orc ds h s n s' v PO R Hr) as [E _].
+  unfold eval_now in E. rewrite G, eval_outcome_fst in E.
+  destruct (eval_outcome (fuel_of (nodes s)) og n) as [[w e]|]; simpl in E; [|discriminate].
+  injection E as ->. eauto.
+Qed.
+
+(* witness with a failing node in a non-terminal position: parameter 0 -> node 1 (fails iff its input is
+   divisible by 3, then returns -1 next to the error) -> node 2 (input + 100) *)
+Definition fail_p : efn := fun ins =>
+  let x := fold_right Z.add 0%Z (concat ins) in if (x mod 3 =? 0)%Z then ((-1)%Z, true) else (x, false).
+Definition plus100_p : efn := fun ins => ((fold_right Z.add 0 (concat ins) + 100)%Z, false).
+Definition failing_decls : list decl :=
+  [DParam 3%Z; DStruct [("In"%string, false)] (served fail_p); DStruct [("In"%string, false)] (served plus100_p)].
+Definition failing_og (x : val) : list onode :=
+  [OParam x; OStruct [[0]] fail_p; OStruct [[1]] plus100_p].
+
+Lemma failing_witness :
+  exists s1 s2 s3,
+    run sorted_oracle (init failing_decls) [Connect 1 "In"%string 0; Connect 2 "In"%string 1] = Some s1 /\
+    (* the upstream node fails: the consumer is computed from the value served next to the error *)
+    read sorted_oracle s1 2 = Some (s2, 99%Z) /\ eval_outcome 4 (failing_og 3%Z) 1 = Some ((-1)%Z, true) /\
+    (* the parameter changes to a value the upstream node accepts; the consumer is read WITHOUT reading
+       the failed node first: it is recomputed *)
+    run sorted_oracle s2 [SetParam 0 4%Z] = Some s3 /\
+    (exists s4, read sorted_oracle s3 2 = Some (s4, 104%Z) /\ execs_of (nodes s4) 1 = 2 /\ execs_of (nodes s4) 2 = 2) /\
+    graph_of (nodes s3) = map oerase (failing_og 4%Z) /\ eval_outcome 4 (failing_og 4%Z) 2 = Some (104%Z, false).
+Proof.
+  eexists. eexists. eexists.
+  split; [vm_compute; reflexivity|]. split; [vm_compute; reflexivity|]. split; [vm_compute; reflexivity|].
+  split; [vm_compute; reflexivity|]. split; [eexists; split; [vm_compute; reflexivity|split; vm_compute; reflexivity]|].
+  split; vm_compute; reflexivity.
+Qed.
